@@ -30,7 +30,8 @@ THEOREMS = ([f'Gnpy.Round.{t}' for t in ('fmt_error_bound', 'fmt_fixpoint', 'fmt
                 'degree_to_yang_idempotent', 'design_band_to_yang_idempotent', 'range_to_yang_idempotent',
                 'loss_coef_to_yang_idempotent', 'design_band_to_legacy_idempotent', 'loss_coef_to_legacy_idempotent',
                 'range_to_legacy_idempotent', 'to_yang_idempotent_of_normal', 'to_yang_idempotent', 'to_legacy_idempotent',
-                'roundtrip_structure_partial',
+                'roundtrip_structure_partial', 'forEachIn_roundtrip', 'onRoadmParams_roundtrip', 'withParams_roundtrip',
+                'range_roundtrip_doc', 'degree_roundtrip_doc', 'loss_coef_roundtrip_doc',
                 'delta_power_range_roundtrip_witness', 'delta_power_range_fails_old', 'raman_efficiency_back_spelling',
                 'raman_efficiency_roundtrip_witness', 'raman_efficiency_fails_old',
                 'alias_entries', 'alias_fails_pre_fix')])
@@ -57,9 +58,12 @@ MODEL_SCOPE = ('modelled: convert_none_to_empty, convert_empty_to_none, convert_
                'from the harness and checked to parse back), the loaders themselves (compared object against object)')
 PARTIAL = ['roundtrip_structure_partial: yang_to_legacy(legacy_to_yang d) ~ d (same members under every key, numbers within half a '
            'unit of the declared digit) is proved per structure (degree_roundtrip, design_band_roundtrip, loss_coef_roundtrip, '
-           'raman_coef_roundtrip, range_roundtrip, fmt_error_bound/fmt_fixpoint) and on five witness documents at document '
-           'level; missing lemmas: forEachIn_congr (lifting a per-params lookup equality through onParams/forEachIn/onKey) and '
-           'convertBack_convertDict_leaf (parseFloatBits (fmtBits b d) = nearest double of the rounded decimal)',
+           'raman_coef_roundtrip, range_roundtrip, fmt_error_bound/fmt_fixpoint), lifted to whole documents per converter '
+           '(forEachIn_roundtrip; range_roundtrip_doc for every SI/Span entry, degree_roundtrip_doc and loss_coef_roundtrip_doc '
+           'for every element) and checked on five witness documents for the full pipeline; missing lemmas: struct_compose '
+           '(composition of the four topology converters on the same params; design-band and Raman _doc instances) and '
+           'convertBack_convertDict_leaf (parseFloatBits (fmtBits b d) = nearest double of the rounded decimal) with its '
+           'commutation with the structural steps',
            'to_yang_idempotent / to_legacy_idempotent are stated under the decidable predicates wfDoc / wfLegacyDoc (the '
            'conversion result is in YANG / legacy normal form, no bare null / [null], no binary float / numbers already numbers); '
            'that every document libyang accepts satisfies them is checked by the harness on every case (op c18.wf), not proved',
